@@ -55,6 +55,10 @@ claim("C13", "Coq proof (associativity of the list-level merge) + all join order
       "Proof: the merge of folder and file lists (absorbing the continued folder with the shared block counted once, deleting the duplicate continued-file entries) gives the same lists whichever adjacent pair is joined first, for multi-folder and single-folder middle parts. The pointer-level mechanics of cabd_merge (list-head propagation, refusal checks before mutation, close from any member) are tied by the oracle only: every permutation of the adjacent joins with random append/prepend on generated sets, identical lists from every member, extraction of every member, refused joins leaving listings unchanged with a clean ledger - partial.",
       NOTE, "4/C13")
 
+claim("C14", "Coq proof (buffer-size independence of the scanner, signature recognition from any prefix state, soundness) + extracted search loop vs C search() + embedded-cabinet oracle",
+      "Proof: scanning buffer by buffer equals scanning the whole byte string; from every searching state of the (repaired) automaton the signature and 16 header bytes yield a candidate with both length fields decoded; search reports only offsets that parsed as cabinets. The extracted search loop (with parse = a generated cabinet starts here) and the C search() must report the same offsets on generated files; found cabinets are compared with the generator (offsets, listings via extraction of every member) for buffer sizes 4..64 and 32768. Completeness of the whole loop (every cabinet not nested in an earlier one is reported) is checked by the oracle, not proved.",
+      NOTE, "4/C14")
+
 def main():
     props = [json.loads(l)["id"] for l in open(os.path.join(V, "properties.jsonl"))]
     # only claim what has a check module
